@@ -65,8 +65,9 @@ Fixpoint utf8_valid (s : string) : bool :=
 Definition has_md_ext (name : string) : bool :=
   ends_with MD name && negb (String.eqb name MD).
 
-(* `to_file_name` (fs.rs:119-122): `name.trim_end_matches(".md")` — *every* trailing `.md` *)
-Definition stem (name : string) : string := trim_end_matches MD name.
+(* `to_file_name` (fs.rs:119-122): `strip_md(&name)` — ONE trailing `.md` (the pinned tree took
+   every trailing `.md` off: finding F14-double-md, repaired) *)
+Definition stem (name : string) : string := strip_md name.
 
 (* `read_file` (fs.rs:97-117): `sub.join("/")`, then `stem` or `sub/stem` *)
 Definition key_of (sub : list string) (name : string) : string :=
@@ -81,8 +82,8 @@ Record loaded := Loaded { l_key : string; l_path : path; l_content : bytes }.
 (* `new_for_path_rec` (fs.rs:55-88): in every directory, the regular files with extension `md`
    whose content is UTF-8, then every sub-directory (hidden ones included: the only filter is
    `is_dir`) with its name pushed on `sub_path`.  The result is collected into a HashMap, so
-   only the set of (key, content) pairs is observable; when two files of one directory have the
-   same key (`x.md`, `x.md.md`) one of them wins, which one is not modelled (class [irregular]). *)
+   only the set of (key, content) pairs is observable; two files never have the same key
+   (FsFacts.load_keys_inj: `x.md` is the note `x`, `x.md.md` the note `x.md`). *)
 Fixpoint load_node (sub : list string) (n : node) : list loaded :=
   match n with
   | File name c =>
@@ -98,19 +99,6 @@ Fixpoint files_node (sub : list string) (n : node) : list (path * bytes) :=
   | Dir name ch => flat_map (files_node (sub ++ [name])) ch
   end.
 Definition files_of (t : list node) : list (path * bytes) := flat_map (files_node []) t.
-
-(* classifier of the known class F14: a loaded file whose key does not lead back to the path
-   it was read from: its name is not `stem ++ ".md"` (`x.md.md`, `.md.md`), or `Key::from_file_name`
-   (graph.rs:301) would change its key once more *)
-Definition plain_md (name : string) : bool := String.eqb (stem name +++ MD) name.
-Definition regular_entry (sub : list string) (name : string) : bool :=
-  plain_md name && String.eqb (key_from_file_name (key_of sub name)) (key_of sub name).
-Fixpoint irregular_node (sub : list string) (n : node) : bool :=
-  match n with
-  | File name c => has_md_ext name && utf8_valid c && negb (regular_entry sub name)
-  | Dir name ch => existsb (irregular_node (sub ++ [name])) ch
-  end.
-Definition irregular (t : list node) : bool := existsb (irregular_node []) t.
 
 (* directory names the loader can push on `sub_path` without changing meaning: not empty *)
 Fixpoint names_ok_node (n : node) : bool :=
@@ -227,7 +215,7 @@ Section Normalize.
     end.
 End Normalize.
 
-(* `Graph::import` re-derives each key with `Key::from_file_name` (graph.rs:301) and `export`
+(* `Graph::import` takes each state key as it is (`Key::name`, graph.rs:316) and `export`
    yields one entry per key: the keys written are the distinct loaded keys *)
 Fixpoint dedup (l : list string) : list string :=
   match l with
@@ -235,4 +223,4 @@ Fixpoint dedup (l : list string) : list string :=
   | x :: r => if existsb (String.eqb x) r then dedup r else x :: dedup r
   end.
 Definition written_keys (t : list node) : list string :=
-  dedup (map (fun l => key_from_file_name (l_key l)) (load t)).
+  dedup (map (fun l => key_name (l_key l)) (load t)).
